@@ -255,7 +255,7 @@ fn brief(it: &Item) -> String {
 pub fn run(args: &Args) -> i32 {
     let mut rep = Report::new(args);
     let pool = crate::sys::make_pool(1);
-    let n = args.count(4000, 80_000);
+    let n = args.count(120_000, 1_600_000);
     let range: Vec<u64> = match args.case {
         Some(c) => vec![c],
         None => (0..n).collect(),
